@@ -241,36 +241,39 @@ class UnitOfWork(object):
         .. seealso:: :func:`version_validity_subquery`
         """
         session = sa.orm.object_session(version_obj)
+        tx_column = tx_column_name(version_obj)
 
         for class_ in version_obj.__class__.__mro__:
             if class_ in self.manager.parent_class_map:
-
-                subquery = self.version_validity_subquery(
-                    parent,
-                    version_obj,
-                    alias=sa.orm.aliased(class_.__table__)
-                )
-                subquery = subquery.scalar_subquery()
-
-                vobj_tx_col = getattr(class_, tx_column_name(version_obj))
-                query = (
-                    sa.select(class_)
+                # Each table of an inheritance hierarchy has a chain of its
+                # own: the previous row is looked up and closed per table,
+                # not through version objects (which span all tables of
+                # their class and would drag the end of one table's chain
+                # into another one when a primary key is reused by another
+                # class of the hierarchy).
+                table = class_.__table__
+                criteria = [
+                    table.c[pk] == getattr(version_obj, pk)
+                    for pk in get_primary_keys(class_)
+                    if pk != tx_column_name(class_)
+                ]
+                previous_tx_id = session.execute(
+                    sa.select(sa.func.max(table.c[tx_column]))
                     .where(
-                        vobj_tx_col == subquery,
-                        *[
-                            getattr(version_obj, pk) ==
-                            getattr(class_.__table__.c, pk)
-                            for pk in get_primary_keys(class_)
-                            if pk != tx_column_name(class_)
-                        ]
+                        table.c[tx_column] < getattr(version_obj, tx_column),
+                        *criteria
                     )
-                    .execution_options(synchronize_session=False)
+                ).scalar()
+                if previous_tx_id is None:
+                    continue
+                session.execute(
+                    table.update()
+                    .where(table.c[tx_column] == previous_tx_id, *criteria)
+                    .values({
+                        end_tx_column_name(version_obj):
+                        self.current_transaction.id
+                    })
                 )
-
-                old_versions = session.scalars(query).all()
-                for old_version in old_versions:
-                    setattr(old_version, end_tx_column_name(version_obj), self.current_transaction.id)
-
 
     def create_association_versions(self, session):
         """
